@@ -80,11 +80,15 @@ def counterpart(recs, cls, site, field, kind):
     itself obeys the discipline (e.g. the loop thread's store), and a write over a read."""
     flat = table_class(cls, field) in ("atomic", "threadlocal")     # sites of such members are plain method names
     cands = []
+    myctx = set(e[4] for e in recs["E"] if e[0] == cls and e[2] == field and e[3] == kind and
+                (e[1].split("/")[-1] if flat else e[1]) == site)
     for e in recs["E"]:
         # e = class, site, field, kind, ctx, locks, ok, dbg, line
         es = e[1].split("/")[-1] if flat else e[1]
         if e[0] != cls or e[2] != field or es == site or e[4] in ("excl", "teardown") or e[7] == "dbg":
             continue
+        if myctx == {"loop"} and e[4] == "loop":
+            continue                            # both on the loop thread: not the other end of a race
         if kind == "R" and e[3] != "W":
             continue
         cands.append((0 if e[6] == "ok" else 1, 0 if e[4] == "loop" else 1, 0 if e[3] == "W" else 1, len(cands),
